@@ -1,37 +1,72 @@
 import TapkeeVerif.Proofs.ParamsEvalBase
-/- per-method verdicts, part 2 (split over several files so that they elaborate in parallel) -/
+/- per-method verdicts, part 2 (split over several files so that they elaborate in parallel):
+   one symbolic evaluation of the generated tables per method and per value of `hasF` (which fixes `current_dimension`) -/
 set_option linter.unusedSimpArgs false
 namespace TapkeeVerif.Params
 open TapkeeVerif.Front TapkeeVerif.Gen TapkeeVerif.C14
 
+theorem verdict_HessianLocallyLinearEmbedding_f (r : Request) (t : TypedVals) (ps : PSet) (hget : ∀ k, ps.get k = t.get k)
+    (hm : t.meth .method = .HessianLocallyLinearEmbedding) (hF : r.hasF = true) : Verdict .HessianLocallyLinearEmbedding r t (afterMerge r ps) := by
+  front_simp [hget, hm, hF]
+  split_ifs <;> verdict_leaf
+
+theorem verdict_HessianLocallyLinearEmbedding_nof (r : Request) (t : TypedVals) (ps : PSet) (hget : ∀ k, ps.get k = t.get k)
+    (hm : t.meth .method = .HessianLocallyLinearEmbedding) (hF : r.hasF = false) : Verdict .HessianLocallyLinearEmbedding r t (afterMerge r ps) := by
+  front_simp [hget, hm, hF]
+  split_ifs <;> verdict_leaf
+
+theorem verdict_HessianLocallyLinearEmbedding (r : Request) (t : TypedVals) (ps : PSet) (hget : ∀ k, ps.get k = t.get k)
+    (hm : t.meth .method = .HessianLocallyLinearEmbedding) : Verdict .HessianLocallyLinearEmbedding r t (afterMerge r ps) := by
+  cases hF : r.hasF
+  · exact verdict_HessianLocallyLinearEmbedding_nof r t ps hget hm hF
+  · exact verdict_HessianLocallyLinearEmbedding_f r t ps hget hm hF
+
+theorem verdict_LaplacianEigenmaps_f (r : Request) (t : TypedVals) (ps : PSet) (hget : ∀ k, ps.get k = t.get k)
+    (hm : t.meth .method = .LaplacianEigenmaps) (hF : r.hasF = true) : Verdict .LaplacianEigenmaps r t (afterMerge r ps) := by
+  front_simp [hget, hm, hF]
+  split_ifs <;> verdict_leaf
+
+theorem verdict_LaplacianEigenmaps_nof (r : Request) (t : TypedVals) (ps : PSet) (hget : ∀ k, ps.get k = t.get k)
+    (hm : t.meth .method = .LaplacianEigenmaps) (hF : r.hasF = false) : Verdict .LaplacianEigenmaps r t (afterMerge r ps) := by
+  front_simp [hget, hm, hF]
+  split_ifs <;> verdict_leaf
+
+theorem verdict_LaplacianEigenmaps (r : Request) (t : TypedVals) (ps : PSet) (hget : ∀ k, ps.get k = t.get k)
+    (hm : t.meth .method = .LaplacianEigenmaps) : Verdict .LaplacianEigenmaps r t (afterMerge r ps) := by
+  cases hF : r.hasF
+  · exact verdict_LaplacianEigenmaps_nof r t ps hget hm hF
+  · exact verdict_LaplacianEigenmaps_f r t ps hget hm hF
+
+theorem verdict_LocalityPreservingProjections_f (r : Request) (t : TypedVals) (ps : PSet) (hget : ∀ k, ps.get k = t.get k)
+    (hm : t.meth .method = .LocalityPreservingProjections) (hF : r.hasF = true) : Verdict .LocalityPreservingProjections r t (afterMerge r ps) := by
+  front_simp [hget, hm, hF]
+  split_ifs <;> verdict_leaf
+
+theorem verdict_LocalityPreservingProjections_nof (r : Request) (t : TypedVals) (ps : PSet) (hget : ∀ k, ps.get k = t.get k)
+    (hm : t.meth .method = .LocalityPreservingProjections) (hF : r.hasF = false) : Verdict .LocalityPreservingProjections r t (afterMerge r ps) := by
+  front_simp [hget, hm, hF]
+  split_ifs <;> verdict_leaf
+
 theorem verdict_LocalityPreservingProjections (r : Request) (t : TypedVals) (ps : PSet) (hget : ∀ k, ps.get k = t.get k)
     (hm : t.meth .method = .LocalityPreservingProjections) : Verdict .LocalityPreservingProjections r t (afterMerge r ps) := by
-  front_simp [hget, hm]
+  cases hF : r.hasF
+  · exact verdict_LocalityPreservingProjections_nof r t ps hget hm hF
+  · exact verdict_LocalityPreservingProjections_f r t ps hget hm hF
+
+theorem verdict_DiffusionMap_f (r : Request) (t : TypedVals) (ps : PSet) (hget : ∀ k, ps.get k = t.get k)
+    (hm : t.meth .method = .DiffusionMap) (hF : r.hasF = true) : Verdict .DiffusionMap r t (afterMerge r ps) := by
+  front_simp [hget, hm, hF]
+  split_ifs <;> verdict_leaf
+
+theorem verdict_DiffusionMap_nof (r : Request) (t : TypedVals) (ps : PSet) (hget : ∀ k, ps.get k = t.get k)
+    (hm : t.meth .method = .DiffusionMap) (hF : r.hasF = false) : Verdict .DiffusionMap r t (afterMerge r ps) := by
+  front_simp [hget, hm, hF]
   split_ifs <;> verdict_leaf
 
 theorem verdict_DiffusionMap (r : Request) (t : TypedVals) (ps : PSet) (hget : ∀ k, ps.get k = t.get k)
     (hm : t.meth .method = .DiffusionMap) : Verdict .DiffusionMap r t (afterMerge r ps) := by
-  front_simp [hget, hm]
-  split_ifs <;> verdict_leaf
-
-theorem verdict_Isomap (r : Request) (t : TypedVals) (ps : PSet) (hget : ∀ k, ps.get k = t.get k)
-    (hm : t.meth .method = .Isomap) : Verdict .Isomap r t (afterMerge r ps) := by
-  front_simp [hget, hm]
-  split_ifs <;> verdict_leaf
-
-theorem verdict_LandmarkIsomap (r : Request) (t : TypedVals) (ps : PSet) (hget : ∀ k, ps.get k = t.get k)
-    (hm : t.meth .method = .LandmarkIsomap) : Verdict .LandmarkIsomap r t (afterMerge r ps) := by
-  front_simp [hget, hm]
-  split_ifs <;> verdict_leaf
-
-theorem verdict_MultidimensionalScaling (r : Request) (t : TypedVals) (ps : PSet) (hget : ∀ k, ps.get k = t.get k)
-    (hm : t.meth .method = .MultidimensionalScaling) : Verdict .MultidimensionalScaling r t (afterMerge r ps) := by
-  front_simp [hget, hm]
-  split_ifs <;> verdict_leaf
-
-theorem verdict_LandmarkMultidimensionalScaling (r : Request) (t : TypedVals) (ps : PSet) (hget : ∀ k, ps.get k = t.get k)
-    (hm : t.meth .method = .LandmarkMultidimensionalScaling) : Verdict .LandmarkMultidimensionalScaling r t (afterMerge r ps) := by
-  front_simp [hget, hm]
-  split_ifs <;> verdict_leaf
+  cases hF : r.hasF
+  · exact verdict_DiffusionMap_nof r t ps hget hm hF
+  · exact verdict_DiffusionMap_f r t ps hget hm hF
 
 end TapkeeVerif.Params
